@@ -17,7 +17,9 @@ def sbe_defaults(p):
     size, signed, flt, _ = PRIM[p]
     bits = size * 8
     if flt:
-        return {"null": "NaN", "min": "-MAX", "max": "MAX"}
+        # SBE 1.0 gives no numeric range for float/double; sbepp documents numeric_limits::min()/max() (smallest positive
+        # normal / largest finite) for its built-in types and C16 defines the default as "the values the built-in types expose"
+        return {"null": "NaN", "min": "MINPOS", "max": "MAX"}
     if p == "char":
         return {"min": 0x20, "max": 0x7e, "null": 0}
     if signed:
